@@ -144,8 +144,13 @@ def parse_direct(W, body, mem, parts_lim, bufsize, k, via=None):
 
             orig, FP.MultiPartParser = FP.MultiPartParser, _P
             try:
-                _, form, files = FP.FormDataParser(max_form_memory_size=mem, max_content_length=via, max_form_parts=parts_lim).parse(
-                    st, "multipart/form-data", len(body), {"boundary": BND.decode()})
+                if via == "parse_form_data":
+                    # the function for applications that work with the environ directly: it takes the same limits
+                    env = {"REQUEST_METHOD": "POST", "wsgi.input": st, "CONTENT_TYPE": "multipart/form-data; boundary=" + BND.decode(), "CONTENT_LENGTH": str(len(body))}
+                    _, form, files = FP.parse_form_data(env, max_form_memory_size=mem, max_form_parts=parts_lim)
+                else:
+                    _, form, files = FP.FormDataParser(max_form_memory_size=mem, max_content_length=via, max_form_parts=parts_lim).parse(
+                        st, "multipart/form-data", len(body), {"boundary": BND.decode()})
             finally:
                 FP.MultiPartParser = orig
         else:
@@ -217,6 +222,10 @@ def check_parser(W, rec, rng, hook):
         via = rng.choice([1, max(1, mem - 1), mem, mem + 1, 10**7])
         rec.observe("parser_cases_via_FormDataParser")
         case["max_content_length_on_parser"] = via
+    elif rng.random() < 0.25:
+        via = "parse_form_data"
+        rec.observe("parser_cases_via_parse_form_data")
+        case["via"] = via
     r, st = parse_direct(W, body, mem, pl, bufsize, k, via)
     hook.limit = None
     field_sizes = [len(d) for a, n, d in parts if a == "field"]
